@@ -15,8 +15,8 @@ What is modelled, statement for statement, in the order the code evaluates it:
 * `Sample.calculate_activation` / `_accumulate`                          (`calcActivation`)
 * `Sample.decay_time` / `find_root`                                      (`decayTime`, `findRoot`)
 
-The model is of the tree **with `fixes/activation-burnup-expm1.patch` and
-`fixes/activation-decay-time.patch` applied** (DESIGN §6 D12a, D18, D3): the single-capture
+The model is of the tree **with `fixes/activation-1-burnup-expm1.patch` and
+`fixes/activation-2-decay-time.patch` applied** (DESIGN §6 D12a, D18, D3): the single-capture
 branch is `lam·T·exp(-min(U,V))·expm1(-|V-U|) / (-|V-U|)` (limit at `V = U`), `decay_time` works from the activity at
 removal from the beam, which `calculate_activation` now records besides the requested
 rest times.
